@@ -145,6 +145,13 @@ pub fn replay_hist(ctx: &NetCtx, c: &Value, rep: &mut Report) {
                         };
                         add_outcome = Some(ok);
                     }
+                    "badload" => {
+                        // a refused load (here: a complete image cut in half) changes nothing
+                        if let Obj::E(e, _) = &mut obj {
+                            let img = Engine::from_rules_parametrised(&["||refused.example^".to_string(), "/refused/*$tag=t1".to_string()], ParseOptions::default(), true, false).serialize_raw().unwrap();
+                            let _ = e.deserialize(&img[..img.len() / 2]);
+                        }
+                    }
                     "discard" => obj.discard(),
                     "serialize" => {
                         if let Obj::E(e, blob) = &mut obj {
